@@ -79,6 +79,23 @@ def run(tier):
         if k % 4 == 3:
             mid = ["cnt 0 %d %s" % (rnd.choice([0, 1, 2, 8, 13, 64]), common.hx("\n".join(["nop", "mov rax, rbx"] + (["bogus rax"] if rnd.random() < 0.3 else []))))]
         add(c, start, [p[0] for p in prog], [p[1] for p in prog], pre, "random", mid)
+    # every chunk size 2..130 (not only those of the grid); programs in which nearly EVERY instruction needs a pad (long instructions,
+    # chunk sizes little above their length: pad, instruction, pad, instruction ...); user-written NOPs of every length next to pads
+    # (padding is what the library inserted - the user's NOPs stay where they are)
+    longs = [(l, h) for (l, h) in allc if len(h) // 2 >= 9]
+    nops = [(l, h) for (l, h) in allc if l.startswith("nop")]
+    for k in range(600 if not full else 40000):
+        kind = k % 3
+        if kind == 0:
+            c = rnd.randrange(2, 131)
+            prog = [rnd.choice(allc) for _ in range(rnd.randrange(1, 40))]
+        elif kind == 1 and longs:
+            c = rnd.randrange(10, 41)
+            prog = [rnd.choice(longs) for _ in range(rnd.randrange(2, 30))]
+        else:
+            c = rnd.choice([8, 12, 16, 17, 20, 24, 32])
+            prog = [rnd.choice(nops + longs if nops else allc) if rnd.random() < 0.7 else rnd.choice(allc) for _ in range(rnd.randrange(2, 30))]
+        add(c, rnd.choice([0, 1, 5, c - 1, c + 3, 4096 - 2]), [p[0] for p in prog], [p[1] for p in prog], [], "random")
     # library-managed buffers (growing during the call) with chunk sizes around and above the mapping size, instructions placed across offset c / 2c
     for k in range(100 if not full else 3000):
         c = rnd.choice([6000, 6019, 6020, 6021, 8192, 12020, 12040, 65536, 100000])
@@ -166,7 +183,7 @@ def run(tier):
     stats["triples_c_q_len"] = len(seen_triples)
     stats["lengths_in_catalogue"] = sorted(cat)
     v.cov["rule"] = ("grid: chunk sizes %s x every position q in 0..c-1 (prefix of q one-byte non-NOP instructions) x every encoded length in the catalogue (%s bytes; 2+ lines each): "
-                     "every (c,q,len) triple incl. gaps > 11 bytes; plus seeded random programs x start offsets x fitting switched on/off/resized before the call; c<2 must give the plain code. "
+                     "every (c,q,len) triple incl. gaps > 11 bytes; plus seeded random programs x start offsets x fitting switched on/off/resized before the call, every chunk size 2..130, programs of long instructions under chunk sizes little above their length (pad after pad), user-written NOPs next to pads; c<2 must give the plain code. "
                      "Oracle: layout model (pad exactly where the next instruction shorter than c would cross a c-aligned boundary), pad bytes must decode (two decoders) as NOP instructions "
                      "exactly covering the gap, instruction bytes must equal their plain encoding (stripped == plain); plus JIT execution: seeded executable programs must return the same rax plain and fitted" % ("2..20,32,64" if not full else "2..40,64,100,4096", sorted(cat)))
     v.cov["exhaustive"] = True
